@@ -21,14 +21,15 @@ Definition InvCtl (s : st) : Prop :=
   (proc_owned (k_dpc (k s)) = true -> k_ppc (k s) = PInDie) /\
   (k_ppc (k s) = PNone -> g_cbfail (g s) = false) /\
   after_ok (k_dpc (k s)) /\
-  (k_ppc (k s) = PErrChk -> g_dead (g s) = true).
+  (k_ppc (k s) = PErrChk -> g_dead (g s) = true) /\
+  (forall sp, k_ppc (k s) = PConnDone sp (Some false) -> g_dead (g s) = true).
 
 Lemma InvCtl_init : InvCtl init.
 Proof. repeat split; cbn; try discriminate; auto. Qed.
 
 Lemma InvCtl_step s e s' : InvCtl s -> step s e = Some s' -> InvCtl s'.
 Proof.
-  intros (I1 & I2 & I3 & I4 & I5 & I6) H.
+  intros (I1 & I2 & I3 & I4 & I5 & I6 & I7) H.
   destruct e.
   all: step_leaves H.
   all: unfold InvCtl, dead_ppc in *; simp_proj; clean_eqs.
@@ -36,6 +37,10 @@ Proof.
   all: try solve [intuition (try discriminate; try congruence)].
   all: destruct (k_dpc (k s)) as [|cu0 cc0 [a0|]|[a1|]|] eqn:D; cbn [dead_after proc_owned closing after_ok] in *.
   all: try solve [intuition (try discriminate; try congruence)].
+  all: try solve [repeat split; intros; try discriminate; try congruence; eauto].
+  all: autorewrite with proj in *; try congruence.
+  all: match goal with H : k_ppc _ = PConnDone _ (Some ?b) |- _ => destruct b end; cbn [closing] in *.
+  all: try solve [intuition (try discriminate; try congruence; eauto)].
 Qed.
 
 Lemma InvCtl_reach es s : run step init es = Some s -> InvCtl s.
